@@ -10,7 +10,7 @@ Explain(e) ==
    CASE e.ev = "Extract" ->
           IF e.obs.hang THEN No("the extraction does not terminate on a well-formed setup request")
           ELSE IF e.obs.panic THEN No("the extraction panics on a well-formed setup request")
-          ELSE IF e.obs.ip # e.exp.ip THEN No("UE address " \o Str(e.obs.ip) \o " reported, the network encoded " \o Str(e.exp.ip))
+          ELSE IF Len(e.nas) > 0 /\ e.obs.ip # e.exp.ip THEN No("UE address " \o Str(e.obs.ip) \o " reported, the network encoded " \o Str(e.exp.ip))
           ELSE IF e.obs.teid # e.exp.teid THEN No("uplink TEID " \o Str(e.obs.teid) \o " reported, the network encoded " \o Str(e.exp.teid))
           ELSE IF e.obs.upf # e.exp.upf THEN No("UPF address " \o Str(e.obs.upf) \o " reported, the network encoded " \o Str(e.exp.upf))
           ELSE Ok
